@@ -1,8 +1,9 @@
 #!/bin/bash
+# usage: tools/ingest_all.sh [NN ...]   ingests /tmp/mut/C<NN>/out/{1,2} (sub-agent output) as the next free seeded/C<NN>_<letter>
 cd /verif
-for i in 01 02 03 04 05 06 07 08 09 10 11 12 13 14 15 16 17 18 19 20; do
+IDS="$@"; [ -z "$IDS" ] && IDS="01 02 03 04 05 06 07 08 09 10 11 12 13 14 15 16 17 18 19 20"
+for i in $IDS; do
   for k in 1 2; do
-    # next free letter for this property
     for l in {a..z} a{a..z}; do [ -d seeded/C${i}_$l ] || break; done
     echo "=== C$i $k -> $l"
     python3 tools/ingest_mutant.py /tmp/mut/C$i/out/$k C$i $l 2>&1 | tail -4 | cut -c1-260
